@@ -538,14 +538,16 @@ def _g(r):
 # ---------------- incoming: calls, ib, auth
 @kind("recv.call.offer", "recv", up="CallProtocolEntity", answers=[ans_call_receipt], c07="call-offer")
 def _g(r):
-    return N("call", attrs(id=rid(r), t=rts(r), from_=rjid(r), notify=ropt(r, rtxt(r)), offline=ropt(r, "0"),
+    return N("call", attrs(id=rid(r), t=rts(r), from_=rjid(r), notify=ropt(r, rtxt(r)),
+                           offline=ropt(r, r.choice(["0", "1", "1", "3"])),       # also replayed from the offline queue
                            retry=ropt(r, "1"), e=ropt(r, "0")), [N("offer", {"call-id": rid(r)})])
 
 
 @kind("recv.call.other", "recv", up="CallProtocolEntity", answers=[ans_call_ack], c07="call-other")
 def _g(r):
     c = r.choice(["transport", "relaylatency", "reject", "terminate", "preaccept", "accept", None])
-    return N("call", attrs(id=rid(r), t=rts(r), from_=rjid(r), notify=ropt(r, rtxt(r))),
+    return N("call", attrs(id=rid(r), t=rts(r), from_=rjid(r), notify=ropt(r, rtxt(r)),
+                           offline=ropt(r, r.choice(["0", "1"]))),
              [N(c, {"call-id": rid(r)})] if c else None)
 
 
